@@ -227,6 +227,15 @@ def build_space(thorough):
                 add((r, c, length, 1, cc, "counter"))
             for fill in ("zero", "ff", "seed"):
                 add((r, c, length, 1, 1, fill))
+    # (d) extremes: the largest representable transmissions (127 / 126 data blocks) with several preamble counts, so that
+    #     counters near their field limits (7-bit blocks-to-follow, 8-bit preamble count-down) are reached in every tier
+    for r, c in rc:
+        opb, opl = OCTETS[(r, c)]
+        for n in (127, 126):
+            length = (n - 1) * opb + opl
+            for k in ((0, 1, 2, 16) if not thorough else range(0, 17)):
+                add((r, c, length, k, 1, "counter"))
+            add((r, c, length - 1, 1, 1, "seed"))
     return cfgs, max_len
 
 
